@@ -6,6 +6,7 @@ mod c10;
 mod cases;
 mod ep;
 mod gen;
+mod tls;
 
 use dsverif::live::{self, Conn};
 use std::net::SocketAddr;
@@ -83,8 +84,24 @@ fn main() {
         let server = Server::start();
         match (o.mode.as_str(), replay) {
             ("probe", _) => probe(&server),
-            (_, Some(cases)) => c09::replay(&server, &cases, out),
-            ("c09", None) => c09::gen_all(&server, o.seed, o.thorough, out),
+            (_, Some(cases)) => {
+                let is_tls = |v: &serde_json::Value| {
+                    v.get("tags")
+                        .and_then(|t| t.as_array())
+                        .map(|a| a.iter().any(|x| x.as_str() == Some("transport:tls")))
+                        .unwrap_or(false)
+                };
+                let (tls_cases, plain): (Vec<_>, Vec<_>) = cases.into_iter().partition(|v| is_tls(v));
+                c09::replay(&server, &plain, out);
+                if !tls_cases.is_empty() {
+                    let cs: Vec<cases::Case> = tls_cases.iter().map(cases::Case::from_json).collect();
+                    tls::replay(&cs, out);
+                }
+            }
+            ("c09", None) => {
+                c09::gen_all(&server, o.seed, o.thorough, out);
+                tls::gen_all(o.seed, o.thorough, out);
+            }
             ("c10", None) => c10::gen_all(&server, o.seed, o.thorough, out),
             (m, _) => panic!("unknown mode {:?}", m),
         }
